@@ -180,3 +180,31 @@ pub fn run_tracehash(line: &str) -> String {
         Err(p) => format!("PANIC {}", panic_msg(p)),
     }
 }
+
+/// `batch` family: operation batching and span hash.  Case: `n op*n` (op tokens).
+/// Output: OK nb=<batches> | groups;counts;num_groups | ... # hash
+pub fn run_batch(line: &str) -> String {
+    let res = catch_unwind(AssertUnwindSafe(|| {
+        let mut t = Toks::new(line);
+        let n: usize = t.next().parse().unwrap();
+        let ops: Vec<Operation> = (0..n).map(|_| parse_op(t.next(), &[])).collect();
+        let block = vm_core::code_blocks::CodeBlock::new_span(ops);
+        let span = match &block {
+            vm_core::code_blocks::CodeBlock::Span(s) => s,
+            _ => unreachable!(),
+        };
+        let mut parts: Vec<String> = Vec::new();
+        for b in span.op_batches() {
+            let g: Vec<String> = b.groups().iter().map(|x| x.as_int().to_string()).collect();
+            let c: Vec<String> = b.op_counts().iter().map(|x| x.to_string()).collect();
+            let o: Vec<String> = b.ops().iter().map(op_name).collect();
+            parts.push(format!("{};{};{};{}", g.join(","), c.join(","), b.num_groups(), o.join(",")));
+        }
+        let h: Vec<String> = block.hash().as_elements().iter().map(|x| x.as_int().to_string()).collect();
+        format!("OK nb={} | {} # {}", span.op_batches().len(), parts.join(" | "), h.join(","))
+    }));
+    match res {
+        Ok(s) => s,
+        Err(p) => format!("PANIC {}", panic_msg(p)),
+    }
+}
